@@ -82,6 +82,23 @@ struct C15 : Harness {
                     else if (state[s] == 2) uac = true;
                     maxlive = std::max(maxlive, t[i].live_slots);
                 }
+                // the statement's matrix: object kind x requested back end x (state of the object -> call made on it)
+                {
+                    std::map<long long, std::string> stt, knd; std::map<long long, long long> cap; long long nslot = 0;
+                    for (size_t i = 0; i < p.size(); ++i) {
+                        const Op &op = p[i];
+                        std::string fn = op.name.substr(op.name.find('.') + 1);
+                        if (op.name.rfind("new.", 0) == 0) { stt[nslot] = op.geti("fill") == 0 ? "zeroed" : "garbage"; knd[nslot] = fn; cap[nslot] = -1; ++nslot; continue; }
+                        long long sl = op.geti("s", -1);
+                        if (sl < 0 || !stt.count(sl)) continue;
+                        if (fn == "init") cap[sl] = op.geti("be", 256);
+                        std::string call = (fn == "enc" || fn == "dec" || fn == "crypt" || fn == "encrypt") ? "data" : fn;
+                        st.count("trans/" + knd[sl] + (cap[sl] >= 0 ? "@cap" + std::to_string(cap[sl]) : "") + "/" + stt[sl] + "->" + call);
+                        if (fn == "init") stt[sl] = t[i].ret == 1 ? "fresh" : "failed";
+                        else if (fn == "cleanup") { if (stt[sl] != "zeroed" && stt[sl] != "garbage") stt[sl] = "cleaned"; }
+                        else if ((fn == "set_key" || fn == "set_tweaked_key") && t[i].ret == 1) stt[sl] = "keyed";
+                    }
+                }
                 if (reinit) st.count("re-init-after-cleanup");
                 if (uac) st.count("use-after-cleanup");
                 st.count("max-live-objects=" + std::string(maxlive > 8 ? ">8" : std::to_string(maxlive)));
